@@ -476,6 +476,39 @@ def check_tx(rep, R, t):
             if r is not p:
                 bad = 'for a box that is empty on axis %d the result is %s, not the point itself' % (k, T.show(r, 3)[:300]); break
         rep.ob(oid, 'R13.alg', VIOLATED if bad else HOLDS, bad or '', fn_where(S.fn))
+        # point inside a non-empty box: the result is p with one coordinate moved to a face that is NEAREST among all six
+        try:
+            pv = [agg.slot_in('a1', i, t) for i in range(3)]
+            asg = {}
+            for k in range(3):
+                asg[cmp_('lt', mx2[k], mn2[k], t)] = False
+                asg[cmp_('lt', pv[k], mn2[k], t)] = False; asg[cmp_('lt', mx2[k], pv[k], t)] = False
+                asg[T.cmp('fcmp', 'oeq', pv[k], pv[k])] = True
+            Jin = T.resolve(J, asg)
+            from .common import lift_all
+            comps = [lift_all(x, [500000]) for x in Jin.args]
+            d1 = [T.binop('fsub', pv[k], mn2[k], lt) for k in range(3)]; d2 = [T.binop('fsub', mx2[k], pv[k], lt) for k in range(3)]
+            per, total, leaves, conds = ordd.all_envs(comps)
+            ar = [l for l in leaves if l.op in ordd.ARITH]
+            if sorted(x.id for x in ar) != sorted(x.id for x in d1 + d2):
+                rep.ob(oid + '#surface', 'R13.ord', UNDECIDED, 'compared quantities are not the six face distances p-min, max-p: %s' % [T.show(x, 3) for x in ar][:8], fn_where(S.fn))
+            else:
+                bad = None; n_ = 0
+                for env in ordd.iter_envs(per):
+                    n_ += 1
+                    sel = [ordd.ev(c, env) for c in comps]
+                    ranks = [env[x.id] for x in d1 + d2]; m_ = min(ranks)
+                    moved = [(k, sel[k]) for k in range(3) if sel[k] is not pv[k]]
+                    ok = len(moved) == 1
+                    if ok:
+                        k, v = moved[0]
+                        ok = (v is mn2[k] and env[d1[k].id] == m_) or (v is mx2[k] and env[d2[k].id] == m_)
+                    if not ok:
+                        names = ['p.x-min.x', 'p.y-min.y', 'p.z-min.z', 'max.x-p.x', 'max.y-p.y', 'max.z-p.z']
+                        bad = 'with face distances ranked %s the result is (%s): not p snapped to a nearest face' % (', '.join('%s:%d' % (a, r) for a, r in zip(names, ranks)), ', '.join(T.show(x, 2) for x in sel)); break
+                rep.ob(oid + '#surface', 'R13.ord', VIOLATED if bad else HOLDS, bad or 'inside a non-empty box: p with one coordinate snapped to a face of minimal distance, on all %d orderings of the six face distances' % n_, fn_where(S.fn))
+        except (ordd.NotOrd, OverflowError) as e:
+            rep.ob(oid + '#surface', 'R13.ord', UNDECIDED, str(e)[:300], fn_where(S.fn))
 
 def is_empty_result(leaf, mn, mx, k, hi, lo):
     if leaf.op != 'tuple': return False
@@ -565,4 +598,4 @@ def main(rep, ws, tier):
             rep.ob('%s == %s' % (a, b), 'R13.spec', HOLDS if ok else VIOLATED, '%d members each decided against the same specification' % len(both) if ok else 'members that differ: %s' % [i for i, x, y in both if not (x == HOLDS and y == HOLDS)], nontrivial=False)
     rep.floor('Box/Interval member instances', sum(1 for o in rep.obs if o['rule'] in ('R13.ord', 'R13.const', 'R13.alg')), 100)
     rep.assumptions += ['NaN-free operands (total order)', 'exact real arithmetic in R13.arvo / center']
-    rep.undecided_clauses += ['NaN operands', 'floating-point rounding inside transform (the bound is tight over the reals)', 'closestPointOnBox surface choice for non-empty boxes']
+    rep.undecided_clauses += ['NaN operands', 'floating-point rounding inside transform (the bound is tight over the reals)', 'closestPointOnBox for points outside the box goes through closestPointInBox (clip), decided separately']
